@@ -498,6 +498,25 @@ func (c *Ctx) toGo(a Value) any {
 				return s
 			}
 			return symPlaceholder{}
+		case Slice:
+			// a []byte with concrete length and contents (for %x, %s, %q)
+			if st, ok := x.t.Underlying().(*types.Slice); ok && v.n.isC {
+				if eb, ok := st.Elem().Underlying().(*types.Basic); ok && eb.Kind() == types.Uint8 {
+					if v.arr == nil {
+						return []byte(nil)
+					}
+					bs := make([]byte, int(v.n.cval))
+					for i := range bs {
+						t, ok := v.arr.elems[v.off+i].(*Term)
+						if !ok || !t.isC {
+							return symPlaceholder{}
+						}
+						bs[i] = byte(t.cval)
+					}
+					return bs
+				}
+			}
+			return symPlaceholder{}
 		}
 		return symPlaceholder{}
 	}
@@ -532,10 +551,93 @@ func inSprintf(c *Ctx, fr *Frame, fn *ssa.Function, a []Value) Value {
 	if format.b != nil {
 		panic(unsupported("Sprintf with symbolic format"))
 	}
+	args = c.stringerArgs(fr, format.c, args)
 	if r, ok := c.symbolicSprintf(fr, format.c, args); ok {
 		return r
 	}
 	return mkStr(c.formatBestEffort(format.c, args))
+}
+
+// stringerArgs: an argument printed with %s / %v / %q whose dynamic type is not a basic type and has a
+// String() string (or Error() string) method is replaced by that method's result, as fmt does. Without
+// this two different values of such a type would both print as the placeholder "?".
+func (c *Ctx) stringerArgs(fr *Frame, format string, args []Value) []Value {
+	out := args
+	ai := 0
+	for i := 0; i < len(format); i++ {
+		if format[i] != '%' {
+			continue
+		}
+		k := i + 1
+		for k < len(format) && strings.IndexByte("0123456789.+-# ", format[k]) >= 0 {
+			k++
+		}
+		if k >= len(format) {
+			break
+		}
+		verb := format[k]
+		i = k
+		if verb == '%' {
+			continue
+		}
+		if ai >= len(args) {
+			break
+		}
+		idx := ai
+		ai++
+		if verb != 's' && verb != 'v' && verb != 'q' {
+			continue
+		}
+		iv, ok := args[idx].(Iface)
+		if !ok || iv.t == nil {
+			continue
+		}
+		if _, basic := iv.t.Underlying().(*types.Basic); basic {
+			if _, named := iv.t.(*types.Named); !named {
+				continue
+			}
+		}
+		if _, isStr := iv.v.(Str); isStr {
+			if _, named := iv.t.(*types.Named); !named {
+				continue
+			}
+		}
+		ms := c.w.prog.MethodSets.MethodSet(iv.t)
+		for _, name := range []string{"Error", "String"} {
+			var sel *types.Selection
+			for j := 0; j < ms.Len(); j++ {
+				if ms.At(j).Obj().Name() == name {
+					sel = ms.At(j)
+				}
+			}
+			if sel == nil {
+				continue
+			}
+			sig, _ := sel.Type().(*types.Signature)
+			if sig == nil || sig.Params().Len() != 0 || sig.Results().Len() != 1 || !types.Identical(sig.Results().At(0).Type(), types.Typ[types.String]) {
+				continue
+			}
+			fn := c.w.prog.MethodValue(sel)
+			if fn == nil || (fn.Blocks == nil && intrinsics[fn.String()] == nil) {
+				continue
+			}
+			if name == "Error" && c.errorText(iv) != "" {
+				break // the plain error types are rendered directly
+			}
+			if p, isPtr := iv.v.(Ptr); isPtr && p.p == nil && p.arr == nil {
+				break // nil receiver: leave it to the placeholder
+			}
+			r := c.call(fr, fn, []Value{iv.v}, nil)
+			if rs, isS := r.(Str); isS {
+				if &out[0] == &args[0] {
+					out = append([]Value{}, args...)
+				}
+				out[idx] = Iface{t: types.Typ[types.String], v: rs}
+			}
+			break
+		}
+	}
+	return out
 }
 
 // symbolicSprintf handles the few verbs that matter with symbolic arguments: %s of a symbolic string,
